@@ -62,6 +62,27 @@ func Load(dir string, overlay map[string][]byte, tags string) (*Prog, error) {
 			}
 		}
 	}
+	if ref := LoadRef(); ref != nil && os.Getenv("SA_NO_NORMALIZE") == "" && os.Getenv("SA_NO_INLINE") == "" {
+		cur := overlay
+		for pass := 1; pass <= 4; pass++ {
+			ov2, n2, changed := inlinePass(ref, pkgs, cur, pass)
+			if !changed {
+				break
+			}
+			pkgs2, err2 := loadPkgs(dir, ov2, tags)
+			if err2 != nil {
+				if os.Getenv("SA_INLINE_DEBUG") != "" {
+					for f, b := range ov2 {
+						os.WriteFile("/tmp/sa_inline_debug_"+strings.ReplaceAll(strings.TrimPrefix(f, dir+"/"), "/", "_"), b, 0o644)
+					}
+				}
+				notes = append(notes, "inlining of functions unknown to the pinned tree abandoned in pass "+fmt.Sprint(pass)+": "+err2.Error())
+				break
+			}
+			pkgs, cur = pkgs2, ov2
+			notes = append(notes, n2...)
+		}
+	}
 	p, err := build(dir, pkgs)
 	if p != nil {
 		p.Notes = notes
